@@ -375,3 +375,39 @@ def reach_cut(body, starts, avoid=(), cut_edges=()):
             seen.add(y)
             st.append(y)
     return seen
+
+
+def loop_of(body, bb):
+    """blocks of the innermost cycle structure through `bb` (strongly connected with it)"""
+    fw = body.reachable_after([bb])
+    return {x for x in fw if bb in body.reachable_after([x])} | {bb}
+
+
+def exhaustive_loop(cx, body, next_call, what, key, ok_exit_blocks=None):
+    """the loop driven by `next_call` (an Iterator::next site) is left only when the iterator is exhausted (None edge of the
+    match on next()'s result) or on an error path (a target from which no success exit is reachable)"""
+    from ..core import option_edges
+    cyc = loop_of(body, next_call.bb)
+    none_edges = set()
+    # (nested loops share one strongly connected region: the None edge of every iterator driven inside it is a regular exit)
+    for c in body.calls:
+        if c.bb in cyc and c.primary.endswith("Iterator>::next") and len(c.dest) == 1:
+            e, sw = option_edges(body, c.dest[0], c.target)
+            if e is not None:
+                for tgt, lab in e.items():
+                    if lab == frozenset({"0"}):
+                        none_edges.add((sw, tgt))
+    oks = ok_exit_blocks if ok_exit_blocks is not None else [x for x, k in exits(body) if k in ("ok", "tail")]
+    bad = []
+    for x in sorted(cyc):
+        if body.blocks[x]["c"]:
+            continue
+        for y in body.succ[x]:
+            if y in cyc or body.blocks[y]["c"] or (x, y) in none_edges:
+                continue
+            r = body.reachable_from([y])
+            if any(o in r for o in oks):
+                bad.append((x, y))
+    cx.check(bool(none_edges) and not bad, what, key, next_call.where(),
+             "%s: the loop can be left early at %s and still return success" % (what, ", ".join(body.where(x) for x, _ in bad[:3])) if bad else None)
+    return not bad
